@@ -307,7 +307,8 @@ CLAIMED = {
              "(uses C14), annotation_check_passes (a well-typed value passes is_subtype(Type::from_value(v), T)), canonical forms; "
              "checker-only lemmas Check.tc_inv (checking leaves outer bindings unchanged), Check.tc_gi (inferred types contain no "
              "Error/Any), Check.hasTy_unify (uses C15). example_never_type_error instantiates the theorem on a program with "
-             "recursion, loops, match and calls. Tie: ~700 fully annotated generated programs and single-node mutants (21 kinds) "
+             "recursion, loops, match and calls. Tie: ~1.5k fully annotated generated programs (with shadowing for/match/closure binders and inner lets, and uses of "
+             "the outer name after the scope ended) and single-node mutants (23 kinds, incl. use of a name after its scope ended) "
              "per quick run are judged by the real `check` and the real `run`: an accepted program must not raise a type-error "
              "message; the model checker's verdict and the model semantics' outcome class must agree with the real ones for every "
              "program (inside the fragment or not).",
@@ -499,18 +500,26 @@ CLAIMED = {
 
     "C20": dict(
         category="translation_validation",
-        technique="per-input validation by Lean decision procedures (hoistCheck, funextCheck, proved sound for the let-hoist / function-extraction relations) on the real parser's trees + purity lemma + text/parse/run-before-after oracle",
+        technique="per-input validation by Lean decision procedures (hoistCheck / funextCheck for the schema, hoistSafe / funSafe for the side conditions) on the real parser's trees + Lean simulation proofs (up to store extension) that the let-hoist and function-extraction schemas preserve result and output + text/parse/run-before-after oracle",
         text="Every extraction performed by the real tools on generated assignment-free programs (1800 per quick run: 900 per tool, "
              "all six enclosing constructs) is judged by the Lean checkers on the (before, after) trees from the real parser: the "
              "output must be exactly `let n = e` inserted immediately before the enclosing statement in the same block with the "
-             "selected occurrence replaced (IsLetHoist), or a new toplevel function over e's free variables in order with a call "
-             "in place (IsFunExtract), and e must be Pure. Proved: the checkers are sound for the relations; a call-free pure "
-             "expression never changes store or output (pure_keeps_state_partial); after `let n = e` the use n evaluates like e "
-             "(hoisted_use_partial). Oracle: independent text expectation, the output parses, and where the original ran without "
-             "error the result prints the same and ends the same.",
-        note=TB + "PARTIAL: the behaviour-preservation theorems let_hoist_sound / fun_extract_sound are NOT proved (they need a "
-             "simulation up to a store injection); behaviour preservation is decided per input by the oracle. Holds with the "
-             "extract-function hint fix.",
+             "selected occurrence replaced (IsLetHoist), or a new toplevel function whose body is e with a call over its "
+             "parameters in place (IsFunExtract). Proved for all programs and all fuel (closure-free RefSem): the checkers are "
+             "sound for the relations; let_hoist_sound_partial — IsLetHoist plus the decidable side conditions hoistSafe "
+             "(assignment-free, n unused, e and everything evaluated before e in its statement pure and call-free, not a while "
+             "condition) imply that a run ending without a Garden error is reproduced with the same result value and the same "
+             "printed output (no totality hypothesis on e: if e fails where the statement starts, the original run fails too); "
+             "fun_extract_sound_partial — IsFunExtract plus funSafe (e pure and call-free, equal to the new function's body, every "
+             "parameter occurs in e, every variable of e is a parameter or a never-bound global, n fresh) imply the same. The "
+             "driver evaluates hoistSafe / funSafe on the real trees (they hold for ~75-80% of the sampled extractions; the rest "
+             "— impure sub-expression before the selection, call inside the selection — is judged by the oracle only). "
+             "Oracle on every input: independent text expectation, the output parses, and where the original ran without error "
+             "the result prints the same and ends the same.",
+        note=TB + "The behaviour-preservation theorems are about the closure-free restriction of the reference semantics and need the "
+             "side conditions hoistSafe / funSafe (evaluated per input); stores are related by extension, which is why programs "
+             "with assignments are outside the theorems. Closures, impure selections and impure statement prefixes are covered "
+             "by the relation and the oracle only. Holds with the extract-function hint fix.",
         design="§7 C20"),
     "C21": dict(
         category="translation_validation",
